@@ -193,8 +193,10 @@ Transfer(St, e) ==
     IN St2
 
 \* host.transfer outside of a read/write/cancel call completes the pending copy
+\* (with `drop`: the peer also dropped its end before the event was delivered; the host reports one event,
+\* DROPPED carrying the number of items copied)
 TransferLater(St, e) ==
-    [Transfer(St, e) EXCEPT !.H = HostComplete(St.H, e.h, COMPLETED, e.k)]
+    [Transfer(St, e) EXCEPT !.H = HostComplete(St.H, e.h, IF Has(e, "drop") THEN DROPPED ELSE COMPLETED, e.k)]
 
 CancelEv(St, e, write, future) ==
     LET St1 == LeftEverything(St, e.h, e.ev)
